@@ -174,6 +174,9 @@ def getNeighbors (s : LSpace) (p : P2) (r : Int) (incl : Bool) : LSpace × Excep
     | none => (s1, .error .key)
     | some ags => (s1, .ok ags)
 
+/-- `agent.pos = p` written by the user directly: a plain attribute — nothing is validated and the space is not told -/
+def lpoke (s : LSpace) (a : Aid) (p : P2) : LSpace := { s with pos := upd s.pos a (some p) }
+
 inductive LOp where
   | place (a : Aid) (p : P2)
   | move (a : Aid) (p : P2)
